@@ -204,17 +204,24 @@ func cmdCheck(args []string) int {
 			fmt.Printf("VIOLATION property=%s replay=%s\n", id, path)
 			violations++
 			exit = 1
-		case staleFn:
-			// a contract clause of this function no longer fits the code (renamed or removed
-			// local, restructured loop): its proof obligations cannot be judged; only a
-			// failing input replayed on the real code would count
-			fmt.Fprintf(os.Stderr, "undecided: %s (%s; contracts of %s are stale) — see %s\n", name, f.res.Status, f.run.Func, path)
-			undecided++
 		case wasDischarged:
 			// passed on the unchanged tree, fails now
+			if staleFn {
+				sb.WriteString("\nnote: a contract clause of " + f.run.Func + " no longer fits the code and was skipped:\n")
+				for _, sm := range f.run.X.stale {
+					sb.WriteString("  " + sm + "\n")
+				}
+				os.WriteFile(path, []byte(sb.String()), 0o644)
+			}
 			fmt.Printf("VIOLATION property=%s replay=%s no-failing-input-found\n", id, path)
 			violations++
 			exit = 1
+		case staleFn:
+			// a contract clause of this function no longer fits the code (renamed or removed
+			// local, restructured loop) and this obligation was not among those proved on the
+			// unchanged tree: it cannot be judged
+			fmt.Fprintf(os.Stderr, "undecided: %s (%s; contracts of %s are stale) — see %s\n", name, f.res.Status, f.run.Func, path)
+			undecided++
 		case f.res.Status == "failed" && autoKind:
 			// zero-annotation safety/effect obligation with a solver model
 			fmt.Printf("VIOLATION property=%s replay=%s no-failing-input-found\n", id, path)
